@@ -553,6 +553,28 @@ theorem screens_last_after_clear (w₀ : List TermItem) (ls : List Print.Bytes) 
           simp only
           refine ⟨?_, by simp⟩
           simpa using h1
+/-- a clear followed by lines only adds one screen: those lines -/
+theorem screens_append_clear (w₀ : List TermItem) (ls : List Print.Bytes) :
+    screens (w₀ ++ TermItem.clear :: ls.map TermItem.line) = screens w₀ ++ [ls] := by
+  induction w₀ with
+  | nil => simp [screens, screens_lines]
+  | cons it rest ih =>
+    cases it with
+    | clear => simp only [List.cons_append, screens, ih]
+    | line bs =>
+      simp only [List.cons_append, screens, ih]
+      cases h : screens rest with
+      | nil => exact absurd h (screens_ne_nil _)
+      | cons s ss => rfl
+
+theorem keysExact_of_simple (ks : List (List Value)) (h : ks.all (fun k => k.all Spec.Agg.simpleValue) = true) : KeysExact ks := by
+  intro a ha b hb hab
+  rw [List.all_eq_true] at h
+  exact cmpList_eq_of_simple (h a ha) (h b hb) hab
+
+theorem keysExact_subset {ks ks' : List (List Value)} (h : ∀ k ∈ ks', k ∈ ks) (hex : KeysExact ks) : KeysExact ks' :=
+  fun a ha b hb hab => hex a (h a ha) b (h b hb) hab
+
 /-! ### the answer of a run -/
 
 /-- the answer of a follow run that neither skips nor meets a missing REAL rendering -/
